@@ -27,23 +27,39 @@ const MinPackages = 92
 var Patterns = []string{"./bcs/...", "./kernel/...", "./lib/..."}
 
 type Program struct {
-	Dir      string
-	Fset     *token.FileSet
-	Pkgs     []*packages.Package          // module packages (initial)
-	ByPath   map[string]*packages.Package // import path -> package (module packages only)
-	SSA      *ssa.Program
-	SSAPkgs  map[string]*ssa.Package  // import path -> ssa package (module packages only)
-	Funcs    map[string]*ssa.Function // "<pkg suffix>::<name>" -> function (module, non-anonymous)
-	Inlined  []string                 // "caller <- helper" for every call site replaced by the helper's body
-	Absorbed []string                 // helpers absorbed at all their call sites (no longer analysed on their own)
-	AllFns   []*ssa.Function          // every module function incl. anonymous, deterministic order
-	LoadS    float64
-	Errors   []string
+	Dir        string
+	Fset       *token.FileSet
+	Pkgs       []*packages.Package          // module packages (initial)
+	ByPath     map[string]*packages.Package // import path -> package (module packages only)
+	SSA        *ssa.Program
+	SSAPkgs    map[string]*ssa.Package  // import path -> ssa package (module packages only)
+	Funcs      map[string]*ssa.Function // "<pkg suffix>::<name>" -> function (module, non-anonymous)
+	Inlined    []string                 // "caller <- helper" for every call site replaced by the helper's body
+	NormFailed string                   // non-empty: the transforms could not be applied cleanly (the caller reloads without them)
+	Notes      []string
+	Absorbed   []string        // helpers absorbed at all their call sites (no longer analysed on their own)
+	AllFns     []*ssa.Function // every module function incl. anonymous, deterministic order
+	LoadS      float64
+	Errors     []string
 }
 
 // Load loads dir (normally /repo). overlay may replace file contents (used by
 // the self-test variants only).
 func Load(dir string, overlay map[string][]byte) (*Program, error) {
+	p, err := load(dir, overlay, true)
+	if err == nil && p.NormFailed != "" && os.Getenv("XVC_KEEP_NORM") == "" {
+		// the normalising transforms are an aid against false alarms, never a reason to fail:
+		// analyse the program as built when they cannot be applied cleanly
+		why := p.NormFailed
+		p, err = load(dir, overlay, false)
+		if err == nil {
+			p.Notes = append(p.Notes, "normalising transforms disabled for this run: "+why)
+		}
+	}
+	return p, err
+}
+
+func load(dir string, overlay map[string][]byte, normalise bool) (*Program, error) {
 	t0 := time.Now()
 	env := []string{}
 	for _, e := range os.Environ() {
@@ -146,7 +162,16 @@ func Load(dir string, overlay map[string][]byte) (*Program, error) {
 			}
 		}
 	}
-	p.normalise()
+	if normalise {
+		func() {
+			defer func() {
+				if r := recover(); r != nil {
+					p.NormFailed = fmt.Sprintf("panic: %v", r)
+				}
+			}()
+			p.normalise()
+		}()
+	}
 	p.LoadS = time.Since(t0).Seconds()
 	return p, nil
 }
@@ -166,6 +191,7 @@ var NonNil func(ssa.Value) bool
 // module function and drops the helpers that were absorbed at all their call sites.
 func (p *Program) normalise() {
 	if os.Getenv("XVC_NO_NORMALISE") != "" {
+		p.Notes = append(p.Notes, "normalising transforms disabled for this run: XVC_NO_NORMALISE is set")
 		return
 	}
 	pol := func(caller, callee *ssa.Function) bool {
@@ -190,8 +216,8 @@ func (p *Program) normalise() {
 	}
 	p.Inlined = norm.Sites
 	for _, fn := range p.AllFns {
-		if ok, rep := ssa.SanityCheck(fn); !ok {
-			p.Errors = append(p.Errors, fmt.Sprintf("normalised SSA of %s fails the sanity check: %s", fn, rep))
+		if ok, rep := ssa.SanityCheck(fn); !ok && p.NormFailed == "" {
+			p.NormFailed = fmt.Sprintf("normalised SSA of %s fails the sanity check: %s", fn, rep)
 		}
 	}
 	// helpers absorbed everywhere are no longer part of the analysed program
